@@ -27,13 +27,27 @@ for d in sorted(glob.glob(os.path.join(root, "*/"))):
     meta["rules_fired"] = fired
     meta["patch_applies_to_current_tree"] = applies
     n = notes.get(sid, {})
+    meta["neutralised_by_fix"] = bool(n.get("neutralised"))
     if n:
+        if n.get("mechanism"):
+            meta["mechanism"] = n["mechanism"]
+        else:
+            meta.setdefault("mechanism", "")
+    if n and False:
         meta["mechanism"] = n.get("mechanism", "")
         meta["needs_to_manifest"] = n.get("needs", meta.get("needs_to_manifest", ""))
         if not meta["caught_by_static_checks"]:
             meta["why_not_caught"] = n.get("why_not_caught", "")
         else:
             meta.pop("why_not_caught", None)
+    if not meta.get("mechanism"):
+        np_ = os.path.join(d, "NOTES.md")
+        if os.path.exists(np_):
+            for line in open(np_, errors="replace"):
+                line = line.strip().lstrip("#").strip()
+                if line:
+                    meta["mechanism"] = "(author's title) " + line[:160]
+                    break
     json.dump(meta, open(metap, "w"), indent=1)
     rows.append((sid, meta))
 
@@ -45,7 +59,10 @@ with open(os.path.join(root, "INDEX.md"), "w") as f:
             "existing suite passes with it. The authors were sub-agents that saw only the property text.\n"
             "Regenerate with `tools/reeval_seeded.py`.\n\n")
     caught = sum(1 for _, m in rows if m["caught_by_static_checks"])
-    f.write(f"**{caught} of {len(rows)} caught** by the static checks on the current tree.\n\n")
+    neutral = sum(1 for _, m in rows if m.get("neutralised_by_fix") and not m["caught_by_static_checks"])
+    own = sum(1 for _, m in rows if m["caught_by_static_checks"] and m["breaks_property"] in m["properties_fired"])
+    f.write(f"**{caught} of {len(rows)} caught** by the static checks on the current tree ({own} by a rule listed under the property the change breaks); "
+            f"{neutral} no longer break the property because a later `fix:` commit closed the hole they went through; {len(rows)-caught-neutral} missed.\n\n")
     f.write("| id | property | mechanism | caught by | not caught because |\n|---|---|---|---|---|\n")
     for sid, m in rows:
         rules = sorted({l.split()[0] for l in m["rules_fired"]})
